@@ -10,7 +10,7 @@ from .. import estimators as E
 from .. import gens
 from ..harness import Sub, Violation
 
-RULE = ("fitted Kauri trees (n up to 40, d up to 5, ties), feature-name lists of unique generated strings (letters, "
+RULE = ("fitted Kauri trees (n up to 40, d up to 5, ties, data scaled by 1e-12..1e5), feature-name lists of unique generated strings (letters, "
         "digits, spaces, punctuation) of length >= d, between max-used-index+1 and d, too short, or None; stdout is parsed "
         "by a recursive-descent reader of the printed format into nested rules which are evaluated on query points "
         "(random, exactly on thresholds, just above thresholds, far away). Non-trivial: depth >= 2 and >= 2 features used.")
@@ -33,6 +33,7 @@ def tree_case(draw):
     d = s["d"]
     names = draw(st.lists(st.text(alphabet=name_alphabet, min_size=1, max_size=8).map(str.strip).filter(lambda z: len(z) > 0),
                           min_size=d + 2, max_size=d + 2, unique=True))
+    s["x"]["scale"] = draw(st.sampled_from([1.0, 1e-7, 1e5, 1e-3, 1.0, 1e-12]))
     return {"spec": s, "names": names, "mode": draw(st.sampled_from(["none", "exact", "longer", "minimal", "short", "array"])),
             "qseed": draw(gens.seeds)}
 
@@ -85,7 +86,7 @@ def apply(rule, x):
 def oracle_tree(case):
     from gemclus.tree import print_kauri_tree
     s = case["spec"]
-    X = E.build_kauri_data(s)
+    X = E.build_kauri_data(s) * s["x"].get("scale", 1.0)
     label = E.label(s)
     est, y = E.build_kauri(s, X)
     with warnings.catch_warnings():
@@ -146,7 +147,7 @@ def oracle_tree(case):
     rs = np.random.RandomState(case["qseed"])
     n = len(X)
     Q = [X[i] for i in range(min(n, 10))]
-    Q += [X[rs.randint(n)] + rs.randn(d) * rs.choice([0.3, 50.0]) for _ in range(10)]
+    Q += [X[rs.randint(n)] + rs.randn(d) * rs.choice([0.3, 50.0]) * s["x"].get("scale", 1.0) for _ in range(10)]
     for nd in range(t.n_nodes):
         if t.children_left[nd] != -1:
             q = X[rs.randint(n)].copy()
@@ -155,6 +156,9 @@ def oracle_tree(case):
             q2 = q.copy()
             q2[t.features[nd]] = np.nextafter(t.thresholds[nd], np.inf)
             Q.append(q2)
+            q3 = q.copy()
+            q3[t.features[nd]] = np.nextafter(t.thresholds[nd], -np.inf)
+            Q.append(q3)
     Q = np.array(Q)
     pred = est.predict(Q)
     for q, p in zip(Q, pred):
